@@ -673,7 +673,93 @@ func (g *gen) all() []input {
 		value("KBase64", "random", vl(l), oldB)
 	}
 	g.histories()
+	g.parallels()
 	return g.out
+}
+
+// pure functions in parallel: 8 goroutines, each with its own few inputs (texts distinct between goroutines), tight loops;
+// and the same items interleaved on one goroutine (decode A, decode B, decode A again)
+func (g *gen) parallels() {
+	const N = 8
+	used := map[string]bool{}
+	uniq := func(mk func() string) string {
+		for {
+			s := mk()
+			if !used[s] {
+				used[s] = true
+				return s
+			}
+		}
+	}
+	decItem := func(t string, tok []byte) pitem { return pitem{Op: "dec", T: t, Tok: hexs(tok)} }
+	encItem := func(t string, v val) pitem { j := toJV(v); return pitem{Op: "enc", T: t, V: &j} }
+	type plan struct {
+		t     string
+		loops int // calls per goroutine in the quick tier
+		runs  int
+		items func(gi int) []pitem
+	}
+	durText := func() string {
+		return uniq(func() string {
+			if g.chance(25) {
+				return strconv.Itoa(1+g.intn(5000)) + g.pick([]string{"ns", "us", "ms", "s", "m", "h"})
+			}
+			return time.Duration(g.randI64()).String()
+		})
+	}
+	numText := func() string { return uniq(func() string { return g.pick([]string{"", "-"}) + g.numText() }) }
+	plans := []plan{
+		{"JDur", 150000, 2, func(int) []pitem {
+			return []pitem{decItem("JDur", q(durText())), decItem("JDur", q(durText())), decItem("JDur", q(durText())),
+				{Op: "toml", T: "JDur", Tok: hexs([]byte(durText()))}, decItem("JDur", q(durText()+"x")), encItem("JDur", vz(g.randI64()))}
+		}},
+		{"JI64", 30000, 1, func(int) []pitem {
+			return []pitem{decItem("JI64", q(numText())), decItem("JI64", []byte(numText())), decItem("JI64", q(numText())), encItem("JI64", vz(g.randI64()))}
+		}},
+		{"JU64", 30000, 1, func(int) []pitem {
+			return []pitem{decItem("JU64", q(numText())), decItem("JU64", q(numText())), decItem("JU64", []byte(numText())), encItem("JU64", vu(g.randU64()))}
+		}},
+		{"JUnixTime", 30000, 1, func(int) []pitem {
+			return []pitem{decItem("JUnixTime", q(numText())), decItem("JUnixTime", q(numText())), encItem("JUnixTime", g.valueFor("JUnixTime"))}
+		}},
+		{"JNanoTime", 30000, 1, func(int) []pitem {
+			return []pitem{decItem("JNanoTime", q(numText())), decItem("JNanoTime", q(numText())), encItem("JNanoTime", g.valueFor("JNanoTime"))}
+		}},
+		{"JStamp", 30000, 1, func(int) []pitem {
+			return []pitem{decItem("JStamp", q(numText())), decItem("JStamp", q(numText())), encItem("JStamp", vz(g.randI64()))}
+		}},
+		{"JByte", 30000, 1, func(int) []pitem {
+			s1, _ := g.byteListText()
+			s2, _ := g.byteListText()
+			return []pitem{decItem("JByte", q(s1)), decItem("XByteStr", []byte(s2)), encItem("JByte", g.valueFor("JByte")), encItem("XByteStr", g.valueFor("JByte"))}
+		}},
+		{"XHex", 30000, 1, func(gi int) []pitem {
+			t := []string{"XHex:s:16", "XHex:u:16", "XHex:s:32", "XHex:u:32"}[gi%4]
+			base := 16
+			if strings.HasSuffix(t, "32") {
+				base = 32
+			}
+			s1, _ := g.hexToken(base)
+			s2, _ := g.hexToken(base)
+			v := vu(g.randU64())
+			if strings.Contains(t, ":s:") {
+				v = vz(g.randI64())
+			}
+			return []pitem{decItem(t, []byte(s1)), decItem(t, []byte(s2)), encItem(t, v)}
+		}},
+	}
+	for _, p := range plans {
+		for run := 0; run < p.runs; run++ {
+			streams := make([]pstream, N)
+			for gi := range streams {
+				streams[gi] = pstream{Items: p.items(gi)}
+			}
+			g.out = append(g.out, input{Op: "par", T: p.t, Par: streams, Loops: g.vol("par", p.t, p.loops) / map[bool]int{true: 3, false: 1}[g.e.Thorough || g.e.Search], Class: "parallel"})
+			if run == 0 {
+				g.out = append(g.out, input{Op: "seq", T: p.t, Par: streams, Loops: 3, Class: "interleaved"})
+			}
+		}
+	}
 }
 
 // a value of the type t (codec or SQL kind)
